@@ -6,6 +6,7 @@ import (
 	"crypto/sha1"
 	"encoding/base64"
 	"errors"
+	"io"
 	"net/http"
 	"strings"
 )
@@ -57,4 +58,48 @@ func ParseAll(b []byte) (frames []Frame, rest []byte, err error) {
 		b = b[n:]
 	}
 	return frames, nil, nil
+}
+
+// ReadFrame reads exactly one frame from a stream (blocking according to the
+// underlying connection's deadline). maxPayload bounds the accepted length.
+func ReadFrame(br *bufio.Reader, maxPayload uint64) (Frame, error) {
+	var f Frame
+	var hdr [14]byte
+	if _, err := io.ReadFull(br, hdr[:2]); err != nil {
+		return f, err
+	}
+	n := 2
+	switch hdr[1] & 0x7f {
+	case 126:
+		if _, err := io.ReadFull(br, hdr[2:4]); err != nil {
+			return f, err
+		}
+		n = 4
+	case 127:
+		if _, err := io.ReadFull(br, hdr[2:10]); err != nil {
+			return f, err
+		}
+		n = 10
+	}
+	if hdr[1]&0x80 != 0 {
+		if _, err := io.ReadFull(br, hdr[n:n+4]); err != nil {
+			return f, err
+		}
+		n += 4
+	}
+	// parse the header with an empty payload view to learn the declared length
+	_, _, _, decl, err := ParseFrame(hdr[:n])
+	if err != nil && err != ErrShort {
+		return f, err
+	}
+	if decl > maxPayload {
+		return f, errors.New("wsmodel: frame longer than the reader accepts")
+	}
+	buf := make([]byte, n+int(decl))
+	copy(buf, hdr[:n])
+	if _, err := io.ReadFull(br, buf[n:]); err != nil {
+		return f, err
+	}
+	f, _, _, _, err = ParseFrame(buf)
+	return f, err
 }
